@@ -756,7 +756,7 @@ class Ev:
                     return getattr(recv, f.attr)(*args)
                 except (IndexError, ValueError) as err:
                     raise _ModelRaise(type(err).__name__) from err
-            if isinstance(recv, set) and f.attr in SET_METHODS:
+            if isinstance(recv, (set, frozenset)) and f.attr in SET_METHODS and hasattr(recv, f.attr):
                 return getattr(recv, f.attr)(*args)
             if callable(recv) and f.attr in getattr(recv, "_sa_attrs", ()):  # chain.from_iterable
                 return getattr(recv, f.attr)(*[self.iterate(a) if isinstance(a, Obj) else a for a in args])
